@@ -163,9 +163,9 @@ def gen_case(rng, profile, idx=0):
             serde.append({"rename_all": rng.choice(pool[6:] if "kebab_all" in triggers and rng.random() < 0.7 else pool)})
         if is_enum:
             vs = []
-            nvar = 0 if rng.random() < 0.06 else rng.randint(1, 4)
+            nvar = 0 if rng.random() < 0.06 else (rng.randint(5, 10) if rng.random() < 0.25 else rng.randint(1, 4))
             all_skip = rng.random() < 0.08
-            for v in pick_names(rng, ["Active", "Inactive", "InProgress", "Done", "A", "NotStarted", "HTTPError", "X1"], nvar):
+            for v in pick_names(rng, ["Active", "Inactive", "InProgress", "Done", "A", "NotStarted", "HTTPError", "X1", "Paused", "Queued", "Retrying", "TimedOut"], nvar):
                 vserde = []
                 if rng.random() < 0.3:
                     vserde.append({"rename": rng.choice(RENAME_VARIANT_BAD if ("variant_bad" in triggers and rng.random() < 0.6) else RENAME_VARIANT_OK + RENAME_IDENT)})
@@ -322,6 +322,11 @@ def witnesses():
                                              _cmd("status", [{"name": "n", "ty": P("Nothing")}], P("Status"))]), "cfg": DEFAULT_CFG}
     w["C01-event-raw-fallback"] = {"project": _proj([_cmd("notify", [{"name": "app", "ty": P("AppHandle", segs=["tauri"])}], None,
                                                           ["let r#final = compute();", {"emit": "e", "recv": "app", "payload": "r#final"}])]), "cfg": DEFAULT_CFG}
+    w["regression:long-enum"] = {"project": _proj([{"kind": "enum", "name": "Phase", "derives": ["Serialize", "Deserialize"], "serde": [],
+                                                     "variants": [{"name": n, "serde": ([{"rename": r}] if r else [])} for n, r in
+                                                                  [("Queued", None), ("Active", "in \\ progress"), ("Paused", None), ("Retrying", "re\"try"), ("Done", None),
+                                                                   ("Failed", "tab\there"), ("TimedOut", None), ("Cancelled", "ends\\")]]},
+                                                    _cmd("phase", [], P("Phase"))]), "cfg": DEFAULT_CFG}
     w["C01-literal-backslash"] = {"project": _proj([{"kind": "enum", "name": "Status", "derives": ["Serialize", "Deserialize"], "serde": [],
                                                      "variants": [{"name": "Active", "serde": [{"rename": "a\"b"}]}, {"name": "Done", "serde": []}]},
                                                     _cmd("status", [], P("Status"))]), "cfg": DEFAULT_CFG}
